@@ -23,3 +23,14 @@ Proof. split; reflexivity. Qed.
 (** load, (absent) Lock with the release deferred, reload, register, save *)
 Example tie_client_order : c20_client_order = [1; 2; 1; 3; 4].
 Proof. reflexivity. Qed.
+
+(** the recreate path (f0aaa6b): [DWantLock] = the registration lock, release deferred ->
+    [DLoadReg]/[DLoadKey] = loadAccount -> absent: nothing to delete ([DUnlock true]) -> any other
+    load error: give up ([DUnlock false]) -> another Location: nothing to delete ([DUnlock true]) ->
+    [DelReg]/[DelKey] = deleteAccountLocally, which nothing else in the package calls; then, in
+    doIssue, a second newACMEClientWithAccount and the retry with the account it returns *)
+Example tie_compare_and_delete :
+  c20_cad_order = [2; 5; 6; 7; 8; 9] /\ c20_cad_lock_key = true /\ c20_delete_call_sites = 1.
+Proof. repeat split; reflexivity. Qed.
+Example tie_recreate_branch : c20_recreate_calls = [10; 11; 12; 13].
+Proof. reflexivity. Qed.
